@@ -86,7 +86,9 @@ def cmd_confirm(name):
         if rc != 0:
             res[tag + "_demo"] = "build failed: " + out[-300:]
             return
-        rc, out = sh("ulimit -v 8000000; timeout 300 %s" % demo, cwd=wt)
+        # (a demonstration that gives every allocation its own guard pages needs more address space than the default limit)
+        lim = "" if load_meta(name).get("demo_no_ulimit") else "ulimit -v 8000000; "
+        rc, out = sh("%stimeout 300 %s" % (lim, demo), cwd=wt)
         res[tag + "_demo"] = rc
     sh("git -C %s checkout -q -- src" % wt)
     build_and_demo("clean")
